@@ -32,13 +32,18 @@ def main():
     ap.add_argument("--checks", default="")
     ap.add_argument("--list", action="store_true")
     ap.add_argument("--scale", default="1")
+    ap.add_argument("--force-checks", default="", help="run these checks against the selected mutants regardless of the table")
     args = ap.parse_args()
     rows = []
     for name, file, old, new, checks in M:
         if args.k and args.k not in name:
             continue
         if args.checks:
-            checks = [c for c in checks if c in args.checks.split(",")] or args.checks.split(",")
+            checks = [c for c in checks if c in args.checks.split(",")]
+            if not checks:
+                continue
+        if args.force_checks:
+            checks = args.force_checks.split(",")
         if args.list:
             print(name, file, checks)
             continue
